@@ -20,6 +20,7 @@ Definition actual_devices (all_devices values : list string) : list string := de
 
 (* for device in actual_devices for ud in user_demands if f"Ud{device}".upper() == ud.upper() *)
 Definition demand_matches (d ud : string) : bool := String.eqb (upper ("Ud" ++ d)) (upper ud).
+Definition has_demand (demands : list string) (d : string) : bool := existsb (demand_matches d) demands.
 Definition user_devices (devs demands : list string) : list (string * string) :=
   flat_map (fun d => flat_map (fun ud => if demand_matches d ud then [(d, ud)] else []) demands) devs.
 
